@@ -74,6 +74,34 @@ func judgeC07plain(sc *Scope, rings [][]ref.P, acc *Acc) []Problem {
 					}
 				}
 			}
+			// the same with every ring written closed (first vertex repeated at the end): again a ring given in the
+			// opposite direction must not change anything
+			if sc.Spec.Valid {
+				pc := make(geom.Polygon, len(poly))
+				for i := range poly {
+					pc[i] = append(append([][2]float64{}, poly[i]...), poly[i][0])
+				}
+				baseC, panC := run(sc.G, pc, ids, cfg)
+				acc.Calls++
+				if panC == nil {
+					for i := 0; i <= len(pc); i++ { // ring i reversed; i == len: all rings reversed
+						p2 := make(geom.Polygon, len(pc))
+						for j := range pc {
+							if j == i || i == len(pc) {
+								p2[j] = reverseRing(pc[j])
+							} else {
+								p2[j] = pc[j]
+							}
+						}
+						got, pan2 := run(sc.G, p2, ids, cfg)
+						acc.Calls++
+						if pan2 != nil || !reflect.DeepEqual(baseC, got) {
+							probs = append(probs, Problem{Sig: "ring-direction-matters:closed-rings", What: fmt.Sprintf("rings written closed: giving ring %d (%d = all) in the opposite direction changes the result", i, len(pc)), IDs: ids, Cfg: cfg, Got: map[string]any{"as-given": baseC, "reversed-input": got, "panic": pan2}})
+							break
+						}
+					}
+				}
+			}
 			// reverse winding order: every ring of >= 3 vertices reversed, nothing else
 			cfgR := snap.Config{KeepPointsAndLines: keep, ReverseWindingOrder: true}
 			rev, pan3 := run(sc.G, poly, ids, cfgR)
